@@ -27,3 +27,6 @@ def replay(run, P):
     r_replay.run_own(run, P)
     r_replay.run_rb(run, P)
     r_replay.run_must(run, P)
+def cnt(run, P):
+    from rules import r_cnt
+    r_cnt.run(run, P)
